@@ -21,7 +21,9 @@ Definition holes (ts : list ptok) : list string :=
 Definition fill (f : string -> string) (ts : list ptok) : string :=
   String.concat "" (map (fun t => match t with PLit s => s | PHole n => f n end) ts).
 
-Record fspec := { fs_name : string; fs_alias : string (* "" = no alias tag *); fs_ptr : bool }.
+(* a struct field is described by the generator's own fieldInfo record (Model/Rest.v):
+   fi_name, fi_alias ("" = no alias tag), fi_exported, fi_ptr *)
+Notation fspec := field_info (only parsing).
 
 Inductive pkind :=
 | KCtx
@@ -37,17 +39,14 @@ Record mspec := {
 }.
 
 (* ------------------------------------------------ classification of types *)
-Definition fspec_of (f : field_info) : fspec :=
-  {| fs_name := fi_name f; fs_alias := fi_alias f; fs_ptr := fi_ptr f |}.
-
 Definition kind_base (E : env) (t : texpr) (ptr : bool) : option pkind :=
   match t with
-  | TIdent n => if is_struct_type E n then Some (KStruct ptr (map fspec_of (struct_fields E EmptyString n)))
+  | TIdent n => if is_struct_type E n then Some (KStruct ptr (struct_fields E EmptyString n))
                 else Some (KScalar ptr)
   | TSel pkg n =>
       match assoc2 (e_sel E) pkg n with
       | Some SelCtx => if ptr then None else Some KCtx
-      | Some SelNamed => Some (KStruct ptr (map fspec_of (struct_fields E pkg n)))
+      | Some SelNamed => Some (KStruct ptr (struct_fields E pkg n))
       | _ => None
       end
   | TMapT => Some (KMap ptr)
@@ -74,15 +73,19 @@ Definition resolve (al : list (string * string)) (h : string) : string :=
 Definition alias_or_name (al : list (string * string)) (p : string) : string :=
   match map_get al p with Some a => a | None => p end.
 Definition field_key (f : fspec) : string :=
-  if String.eqb (fs_alias f) EmptyString
-  then (if is_exported (fs_name f) then to_camel_case (fs_name f) else fs_name f)
-  else fs_alias f.
+  if String.eqb (fi_alias f) EmptyString
+  then (if fi_exported f then to_camel_case (fi_name f) else fi_name f)
+  else fi_alias f.
+(* the Go expression that reads the field of parameter p: p.F, or the getter p.F() of an unexported field *)
+Definition fexpr (p : string) (f : fspec) : gexpr :=
+  if fi_exported f then EField p (fi_name f) else ECall p (fi_name f).
 
 Section Std.
 Variable fmt_v : sval -> string.
 Variable join_path : string -> string -> option string.
 Variable json_marshal : aval -> option string.
-Variable encode : list (string * string) -> string.
+Variable url_query : string -> list (string * string).               (* query already present in the joined URL *)
+Variable sigma_d : list (string * sval) -> list (string * sval).   (* order in which the map argument is ranged over *)
 
 Definition scalar_text (args : list (string * aval)) (p : string) : option string :=
   match arg_get args p with Some (AScalar v) => Some (fmt_v v) | _ => None end.
@@ -104,7 +107,7 @@ Definition wr_app (a b : wr) : wr :=
   end.
 
 Definition field_write (fs : list (string * fval)) (f : fspec) : wr :=
-  match field_get fs (fs_name f), fs_ptr f with
+  match field_get fs (fi_name f), fi_ptr f with
   | Some (FPlain v), false => WOk [(field_key f, fmt_v v)]
   | Some (FPtr None), true => WOk []                       (* nil pointers are omitted *)
   | Some (FPtr (Some v)), true => WOk [(field_key f, fmt_v v)]
@@ -138,7 +141,7 @@ Definition map_entries (ms : mspec) (args : list (string * aval)) : wr :=
   fold_left (fun acc pk =>
                match snd pk with
                | KMap _ => match arg_get args (fst pk) with
-                           | Some (AMap es) => WOk (map (fun kv => (fst kv, fmt_v (snd kv))) es)   (* a later map replaces an earlier one *)
+                           | Some (AMap es) => WOk (map (fun kv => (fst kv, fmt_v (snd kv))) (sigma_d es))   (* a later map replaces an earlier one *)
                            | _ => WBad
                            end
                | _ => acc
@@ -148,8 +151,8 @@ Definition map_entries (ms : mspec) (args : list (string * aval)) : wr :=
    same key replaces the earlier one (url.Values.Set) *)
 Definition spec_writes (ms : mspec) (args : list (string * aval)) : wr :=
   wr_app (fold_left wr_app (map (param_writes ms args) (s_params ms)) (WOk [])) (map_entries ms args).
-Definition set_all (ws : list (string * string)) : list (string * string) :=
-  fold_left (fun q kv => map_set q (fst kv) (snd kv)) ws [].
+Definition set_all (q0 ws : list (string * string)) : list (string * string) :=
+  fold_left (fun q kv => map_set q (fst kv) (snd kv)) ws q0.
 
 Definition has_query_source (ms : mspec) : bool :=
   existsb (fun pk => match snd pk with
@@ -200,7 +203,7 @@ Definition spec_request (ms : mspec) (hdr_directive : list (string * string)) (b
                         | inl o => o
                         | inr ctx =>
                             OSent {| rq_verb := s_verb ms; rq_path := path_; rq_url := url_; rq_query := None;
-                                     rq_rawquery := None; rq_headers := spec_headers (s_verb ms) hdr_directive;
+                                     rq_headers := spec_headers (s_verb ms) hdr_directive;
                                      rq_body := Some j; rq_ctx := ctx |}
                         end
                     end
@@ -216,19 +219,27 @@ Definition spec_request (ms : mspec) (hdr_directive : list (string * string)) (b
                   | WBad => OIllTyped
                   | WOk ws =>
                       OSent {| rq_verb := s_verb ms; rq_path := path_; rq_url := url_;
-                               rq_query := Some (set_all ws); rq_rawquery := Some (encode (set_all ws));
+                               rq_query := Some (set_all (url_query url_) ws);
                                rq_headers := spec_headers (s_verb ms) hdr_directive;
                                rq_body := None; rq_ctx := ctx |}
                   end
                 else
                   OSent {| rq_verb := s_verb ms; rq_path := path_; rq_url := url_; rq_query := None;
-                           rq_rawquery := None; rq_headers := spec_headers (s_verb ms) hdr_directive;
+                           rq_headers := spec_headers (s_verb ms) hdr_directive;
                            rq_body := None; rq_ctx := ctx |}
             end
       end
   end.
 
 End Std.
+
+(* the headers= directives of an interface as one map (a later embedded interface overrides an
+   earlier one) *)
+Definition iface_directive (I : iface) : list (string * string) :=
+  fold_left (fun h it => match it with
+                         | IEmbed (Some doc) => fold_left (fun h' kv => map_set h' (fst kv) (snd kv)) (parse_headers doc) h
+                         | _ => h
+                         end) I [].
 
 (* ----------------------------------------------------------------- guards *)
 Definition no_char (x : ascii) (s : string) : bool := sall (fun c => negb (Ascii.eqb c x)) s.
@@ -244,30 +255,34 @@ Definition kind_of_param (ms : mspec) (p : string) : option pkind :=
    - placeholders are word-character names, literal path pieces carry no brace
    - parameter names are distinct identifiers (no dot), alias sources and targets are distinct,
      alias names are non-empty and free of dots
-   - every placeholder resolves to a plain (non-pointer) scalar parameter
+   - every placeholder resolves to a plain (non-pointer) scalar parameter, and a placeholder that
+     is nobody's alias is not itself renamed by the alias directive
    - at most one context, one struct, one map parameter; the map is not behind a pointer
      (open finding K_rest_ptr_map); a body verb has its struct parameter (open finding
      K_rest_body_no_struct)
-   - field names are distinct and every field has a non-empty query name *)
+   - field names (and the Go expressions reading them) are distinct and every field has a non-empty
+     query name *)
 Definition wf_tok (t : ptok) : bool :=
   match t with
   | PLit s => no_char "{" s
   | PHole n => nonempty n && sall is_word n
   end.
-Definition wf_field (f : fspec) : bool := nonempty (field_key f) && nonempty (fs_name f) && no_char "." (fs_name f).
-Definition wf_kind (k : pkind) : bool :=
+Definition wf_field (f : fspec) : bool := nonempty (field_key f) && nonempty (fi_name f).
+Definition wf_kind (p : string) (k : pkind) : bool :=
   match k with
-  | KStruct _ fs => forallb wf_field fs && nodup_str (map fs_name fs)
+  | KStruct _ fs => forallb wf_field fs && nodup_str (map fi_name fs) && nodup_str (map (fun f => expr_key (fexpr p f)) fs)
   | KMap ptr => negb ptr
   | _ => true
   end.
 Definition wf_mspec (ms : mspec) : bool :=
   forallb wf_tok (s_toks ms)
   && nodup_str (map fst (s_params ms))
-  && forallb (fun pk => nonempty (fst pk) && no_char "." (fst pk) && wf_kind (snd pk)) (s_params ms)
+  && forallb (fun pk => nonempty (fst pk) && no_char "." (fst pk) && wf_kind (fst pk) (snd pk)) (s_params ms)
   && nodup_str (map fst (s_alias ms)) && nodup_str (map snd (s_alias ms))
   && forallb (fun kv => nonempty (snd kv) && no_char "." (fst kv)) (s_alias ms)
   && forallb (fun h => match kind_of_param ms (resolve (s_alias ms) h) with Some (KScalar false) => true | _ => false end)
+             (holes (s_toks ms))
+  && forallb (fun h => negb (String.eqb (resolve (s_alias ms) h) h) || negb (mem_str h (map fst (s_alias ms))))
              (holes (s_toks ms))
   && Nat.leb (count_kind is_ctx (s_params ms)) 1
   && Nat.leb (count_kind is_struct (s_params ms)) 1
@@ -275,10 +290,29 @@ Definition wf_mspec (ms : mspec) : bool :=
   && (negb (body_verb (s_verb ms)) || Nat.eqb (count_kind is_struct (s_params ms)) 1)
   && (mem_str (s_verb ms) ["GET"; "POST"; "PUT"; "PATCH"; "DELETE"]).
 
-(* argument values inside the region: the text of a path argument carries no brace (open finding
+(* argument values inside the region: they fit the declaration; the text of a path argument carries no brace (open finding
    K_rest_subst_rescan), a pointer-to-struct argument of a GET/DELETE method is not nil (open
    finding K_rest_nil_struct_ptr) *)
+Definition field_typed (fs : list (string * fval)) (f : fspec) : bool :=
+  match field_get fs (fi_name f), fi_ptr f with
+  | Some (FPlain _), false | Some (FPtr _), true => true
+  | _, _ => false
+  end.
+Definition arg_typed (args : list (string * aval)) (pk : string * pkind) : bool :=
+  match snd pk, arg_get args (fst pk) with
+  | KCtx, Some (ACtx _) => true
+  | KScalar false, Some (AScalar _) => true
+  | KScalar true, Some (APtr _) => true
+  | KStruct ptr fs, Some (AStruct ptr' (Some vs)) => Bool.eqb ptr ptr' && forallb (field_typed vs) fs
+  | KStruct true _, Some (AStruct true None) => true
+  | KMap _, Some (AMap _) => true
+  | _, _ => false
+  end.
+(* every declared parameter has an argument of its kind *)
+Definition args_typed (ms : mspec) (args : list (string * aval)) : bool := forallb (arg_typed args) (s_params ms).
+
 Definition args_in_guard (fmt_v : sval -> string) (ms : mspec) (args : list (string * aval)) : bool :=
+  args_typed ms args &&
   forallb (fun h => match arg_get args (resolve (s_alias ms) h) with
                     | Some (AScalar v) => no_char "{" (fmt_v v)
                     | _ => false
